@@ -57,6 +57,39 @@ def _kaisa_case(draw, worlds):
     return case
 
 
+@st.composite
+def _gpt_case(draw):
+    pp, dp, mp = draw(st.sampled_from([(1, 1, 2), (1, 2, 1), (1, 2, 2), (2, 1, 1), (2, 2, 1), (2, 1, 2), (2, 2, 2), (1, 2, 3), (1, 3, 2), (1, 3, 1)]))
+    blocks = draw(st.sampled_from([1, 1, 2]))
+    ius = draw(st.sampled_from([1, 2, 3]))
+    n = draw(st.integers(1, 7))
+    prog, steps = [], 0
+    for _ in range(n):
+        k = draw(st.sampled_from(['train', 'train', 'train', 'state_dict', 'load', 'memory_usage']))
+        if k == 'train':
+            prog.append({'op': 'train', 'seed': draw(st.integers(0, 999))})
+            steps += 1
+        elif k == 'load':
+            if steps == 0:
+                continue            # GPT-NeoX state_dict() asserts that factors exist: only after the first step
+            prog.append({'op': 'load', 'compute_inverses': draw(st.booleans()) if steps % ius == 0 else True})
+        elif k == 'state_dict':
+            if steps == 0:
+                continue
+            prog.append({'op': 'state_dict'})
+        else:
+            prog.append({'op': 'memory_usage'})
+    if not any(o['op'] == 'train' for o in prog):
+        prog.insert(0, {'op': 'train', 'seed': 1})
+    return {'kind': 'gpt', 'pipe': pp, 'data': dp, 'model': mp, 'blocks': blocks, 'h': draw(st.integers(1, 3)), 'f': mp * draw(st.integers(1, 2)),
+            'bias': [[draw(st.booleans()), draw(st.booleans())] for _ in range(blocks)], 'seed': draw(st.integers(0, 999)), 'N': draw(st.integers(1, 2)),
+            'cap': draw(st.sampled_from([0, 1e-5, 25.0])), 'in_hook': draw(st.booleans()), 'accum': draw(st.sampled_from([1, 1, 2])), 'prediv': False,
+            'hp': {'factor_update_steps': draw(st.sampled_from([1, 1, 2])), 'inv_update_steps': ius, 'damping': 0.05, 'factor_decay': 0.9,
+                   'kl_clip': draw(st.sampled_from([1e30, 1e-3])), 'lr': 0.1},
+            'dir_mode': draw(st.booleans()), 'program': prog,
+            'schedule': draw(st.lists(st.integers(0, 63), max_size=250)), 'flip': draw(st.booleans())}
+
+
 class C03(Prop):
     id = 'C03'
     title = 'All ranks issue matching collectives and no rank ever stalls'
@@ -75,17 +108,43 @@ class C03(Prop):
     examples = {'quick': 100, 'thorough': 600}
     shards = {'quick': 4, 'thorough': 16}
     shrink_budget_s = {'quick': 30.0, 'thorough': 180.0}
-    required_labels = {'quick': ['nontrivial=True', 'has_load=True', 'subset_query=True', 'strategy=HYBRID'],
+    required_labels = {'quick': ['nontrivial=True', 'has_load=True', 'subset_query=True', 'strategy=HYBRID', 'kind=gpt', 'kind=kaisa'],
                        'thorough': ['nontrivial=True', 'has_load=True', 'subset_query=True', 'strategy=HYBRID', 'strategy=MEM', 'strategy=COMM']}
 
     def strategy(self, tier):
         worlds = [1, 2, 2, 3, 4, 4, 6, 8] if tier == 'quick' else [1, 2, 3, 4, 4, 6, 8, 8, 12]
-        return _kaisa_case(worlds)
+        return st.one_of(_kaisa_case(worlds), _kaisa_case(worlds), _gpt_case())
 
     def run_case(self, case):
         if case['kind'] == 'kaisa':
             return self._kaisa(case)
-        raise ValueError(case['kind'])
+        return self._gpt(case)
+
+    def _gpt(self, case):
+        import os
+        import shutil
+        import tempfile
+        from vkit import gptrun
+        W = case['pipe'] * case['data'] * case['model']
+        kinds = [o['op'] for o in case['program']]
+        labels = {'kind': 'gpt', 'W': W, 'topo': f"{case['pipe']}x{case['data']}x{case['model']}", 'has_load': 'load' in kinds,
+                  'dir_mode': case['dir_mode'], 'bucketed': case['cap'] > 0, 'len': len(kinds)}
+        tmp = tempfile.mkdtemp(prefix='c03_', dir='/dev/shm' if os.path.isdir('/dev/shm') else None) if case['dir_mode'] else None
+        try:
+            res = gptrun.run_gpt(dict(case, ckpt_dir=(os.path.join(tmp, 'f') if tmp else None)), case['program'], case['schedule'], case['flip'])
+        finally:
+            if tmp:
+                shutil.rmtree(tmp, ignore_errors=True)
+        if res.timed_out:
+            raise RuntimeError('simulation timed out (harness)')
+        if not res.ok:
+            v = res.violations[0]
+            where = f' during {res.trace[v.rank][-1].get("phase")}' if v.rank is not None and res.trace[v.rank] else ''
+            return violation(f'{v}{where} :: GPT-NeoX (pipe,data,model)=({case["pipe"]},{case["data"]},{case["model"]}) program={case["program"]}',
+                             'protocol:' + v.kind, labels=labels)
+        nt = W >= 2 and res.groups_used >= 2
+        labels['nontrivial'] = nt
+        return passed(nt, labels, {'switches': res.switches})
 
     def _kaisa(self, case):
         from vkit import kaisa
